@@ -291,9 +291,9 @@ class AsCompleted(_CHarness):
   max_steps = 60000
 
   def __init__(self, W=2, T=2, bad=None, ignore=False, menu=(),
-               driver='as_completed', timeout=60, mode='preempt'):
+               driver='as_completed', timeout=60, mode='preempt', push=True):
     self.params = dict(W=W, T=T, bad=bad, ignore=ignore, menu=list(menu),
-                       driver=driver, timeout=timeout, mode=mode)
+                       driver=driver, timeout=timeout, mode=mode, push=push)
     self.mode = mode
     _m()
 
@@ -305,7 +305,16 @@ class AsCompleted(_CHarness):
     self.after = None
 
     def body():
-      servers = [m.courier_server.CourierServer(f'w{i}') for i in range(p['W'])]
+      clients = ()
+      host = None
+      if p['push']:
+        # the environment of the upstream tests: a 'host' server lives in the
+        # client process and the workers push heartbeats to it every 60 s
+        host = m.courier_server.CourierServer('host')
+        host.start()
+        clients = ('host',)
+      servers = [m.courier_server.CourierServer(f'w{i}', clients=clients)
+                 for i in range(p['W'])]
       for s in servers:
         s.start()
       pool = m.courier_worker.WorkerPool(
@@ -339,7 +348,7 @@ class AsCompleted(_CHarness):
           acquired=[w.address for w in pool.acquired_workers],
           locked=[w.address for w in pool.all_workers if w.is_locked()],
           calls=list(fake_courier.NET.calls))
-      for s in servers:
+      for s in servers + ([host] if host else []):
         if s.has_started:
           s.stop()
     return body
@@ -352,7 +361,8 @@ class AsCompleted(_CHarness):
     p = self.params
     return (f'{p["driver"]}:W{p["W"]}:'
             f'{"bad-task" if p["bad"] is not None else "good-tasks"}'
-            f'{"-ignored" if p["ignore"] else ""}')
+            f'{"-ignored" if p["ignore"] else ""}:'
+            f'{"push" if p["push"] else "pull"}-heartbeats')
 
   def check(self, res):
     p = self.params
@@ -397,6 +407,16 @@ class AsCompleted(_CHarness):
           if usable > 0:
             out.append((f'C06:tasks:wrong-error-for-failing-task:{fault}:{cfg}',
                         {'end': repr(e)}))
+      elif p['driver'] != 'as_completed':
+        # run()/call_and_wait() do not retry: a retriable transport error may
+        # surface, but only as a time-out style error, never silently
+        if not (getattr(e, 'code', 0) == 4 or isinstance(e, TimeoutError)):
+          out.append((f'C06:tasks:wrong-error-under-fault:{fault}:{cfg}',
+                      {'end': repr(e)}))
+      elif usable > 0 and 'All workers timeout' in str(e):
+        out.append((f'C06:tasks:all-workers-timeout-although-a-worker-is-usable:{cfg}',
+                    {'end': repr(e), 'results': self.results,
+                     'calls': self.after['calls']}))
       elif usable > 0:
         out.append((f'C06:tasks:unexpected-error-with-usable-worker:{fault}:{cfg}',
                     {'end': repr(e), 'results': self.results,
